@@ -38,6 +38,7 @@ type loopInfo struct {
 	dec0    T
 	hasDec  bool
 	minPos  token.Pos
+	head    *State // state at the loop head after havoc (for prev())
 }
 
 type Exec struct {
@@ -86,6 +87,7 @@ type Exec struct {
 	cutsDone    map[*CutSpec]bool
 	cutFacts    []int
 	assertsDone map[*AssertSpec]bool
+	appliesDone map[*ApplySpec]bool
 	arrayCells  map[*Cell]int
 	arrayElem   map[*Cell]MT
 }
@@ -455,7 +457,7 @@ func newExec(w *World, fn *ssa.Function, c *Contract, split *int) *Exec {
 		loops: map[*ssa.BasicBlock]*loopInfo{}, backEdge: map[[2]*ssa.BasicBlock]bool{},
 		kindCount: map[string]int{}, callCount: map[string]int{}, srcLines: map[string][]string{},
 		usedWaivers: map[*Waiver]bool{}, splitVal: split,
-		arrayCells: map[*Cell]int{}, arrayElem: map[*Cell]MT{}, cutsDone: map[*CutSpec]bool{}, assertsDone: map[*AssertSpec]bool{}}
+		arrayCells: map[*Cell]int{}, arrayElem: map[*Cell]MT{}, cutsDone: map[*CutSpec]bool{}, assertsDone: map[*AssertSpec]bool{}, appliesDone: map[*ApplySpec]bool{}}
 	x.vc = newVC(x.name, mode)
 	if split != nil {
 		x.suffix = fmt.Sprintf("/%s=%d", c.Split.Var, *split)
@@ -490,6 +492,21 @@ func newExec(w *World, fn *ssa.Function, c *Contract, split *int) *Exec {
 		return v.(Leaf).T
 	}
 	x.ev.onRS = func(v, e T) { x.rsTerms = append(x.rsTerms, [2]T{v, e}) }
+	x.ev.prev = func(e Expr, env *Env) Val {
+		var best *loopInfo
+		for _, li := range x.loops {
+			if li.body[x.curBlock] && li.head != nil && (best == nil || len(li.body) < len(best.body)) {
+				best = li
+			}
+		}
+		if best == nil {
+			panic(evalErr("prev() used outside a loop"))
+		}
+		saved := x.cur
+		x.cur = best.head
+		defer func() { x.cur = saved }()
+		return x.ev.Eval(e, env)
+	}
 	x.ev.onDec = func(lo, hi T) {
 		for _, d := range x.decTerms {
 			if d[0].S == lo.S && d[1].S == hi.S {
